@@ -364,14 +364,31 @@ def err3(ctx):
         _check_formatter_tuple(r, fb, "group", "line")
     # ---- (ii) parse_aliases
     pa = ctx.fn(lib, "asca::parse_aliases")
-    loops = for_loops(pa.hir["body"])
+    # helpers of lib.rs that build the alias lexer are looked through; plain renamings are followed by HirId
+    pa_root = hirq.inline_helpers(lib, pa, prefixes=("asca::",), only_if=lambda cb: cb.path.count("::") == 1 and any(
+        n["e"] == "call" and "AliasLexer::new" in (hirq.strip(n["f"]).get("path") or "") for n in hirq.walk(cb.hir["body"])))
+    pa_lets = {n["pat"]["hid"]: n["init"] for n in hirq.walk(pa_root)
+               if n["e"] == "let" and n["pat"].get("p") == "bind" and n.get("init") is not None and "hid" in n["pat"]}
+    pa_phid = {q["hid"]: q["name"] for p_ in (pa.hir.get("params") or []) for q in hirq.walk_pats(p_) if q.get("p") == "bind"}
+
+    def pa_resolve(e, depth=0):
+        e0 = hirq.strip(e)
+        while e0.get("e") in ("addr", "unary"):
+            e0 = hirq.strip(e0["a"])
+        if e0.get("e") == "path" and "hid" in e0:
+            if e0["hid"] in pa_phid:
+                return ("local", pa_phid[e0["hid"]])
+            if e0["hid"] in pa_lets and depth < 6 and hirq.strip(pa_lets[e0["hid"]]).get("e") in ("path", "addr", "unary"):
+                return pa_resolve(pa_lets[e0["hid"]], depth + 1)
+        return expr_name(e0)
+    loops = for_loops(pa_root)
     kinds_seen = {}
     for pat, it, body, ln in loops:
         e = enumerate_index(pat, it)
         if not e:
             continue
         iname, xname, base = e
-        bname = expr_name(base)
+        bname = pa_resolve(base)
         if bname[0] != "local" or bname[1] not in pa.param_names:
             continue
         for p, args, cln in _calls_in(body, ("alias::lexer::AliasLexer::new", "alias::parser::AliasParser::new")):
@@ -381,7 +398,7 @@ def err3(ctx):
             names = cb.param_names
             if "kind" not in names or "line" not in names:
                 raise AnchorMissing("%s has no kind/line parameters" % p)
-            k = expr_name(args[names.index("kind")])
+            k = pa_resolve(args[names.index("kind")])
             l = expr_name(args[names.index("line")])
             kind = (k[1] or "").rsplit("::", 1)[-1] if k[0] == "path" else "?"
             kinds_seen.setdefault(bname[1], set()).add(kind)
@@ -422,14 +439,14 @@ def err3(ctx):
     #      of the very element of the caller's list, untransformed (columns are measured in it)
     TEXT_OK = ("chars", "collect", "as_str", "as_ref", "as_slice", "iter", "copied", "cloned", "to_vec", "deref", "borrow")
     n_text = 0
-    for fb_, ctors in ((prg, ("lexer::Lexer::new",)), (pa, ("alias::lexer::AliasLexer::new",))):
-        slets = single_lets(fb_.hir["body"])
+    for fb_, froot, ctors in ((prg, prg.hir["body"], ("lexer::Lexer::new",)), (pa, pa_root, ("alias::lexer::AliasLexer::new",))):
+        slets = single_lets(froot)
         elems = set()
-        for pat, it, body, ln in for_loops(fb_.hir["body"]):
+        for pat, it, body, ln in for_loops(froot):
             e = enumerate_index(pat, it, with_adaptors=True, lets=slets)
             if e:
                 elems.add(e[1])
-        for p_, args, ln in calls_to(fb_, ctors):
+        for p_, args, ln in _calls_in(froot, ctors):
             cb = lib.body(p_)
             ti = [i for i, t in enumerate(cb.param_tys) if t.endswith("[char]")]
             if not ti:
